@@ -560,6 +560,16 @@ func (s *vP4Srv) decodeTableEntry(te *p4.TableEntry, needAction bool) (*vP4Entry
 	return e, true
 }
 
+var vP4Trace = os.Getenv("VERIF_P4TRACE") != ""
+
+// decodeTableEntryQuiet decodes without recording C16 findings (tracing only).
+func (s *vP4Srv) decodeTableEntryQuiet(te *p4.TableEntry) (*vP4Entry, bool) {
+	saved := s.c16
+	e, ok := s.decodeTableEntry(te, false)
+	s.c16 = saved
+	return e, ok
+}
+
 func vMatchStr(e *vP4Entry) string {
 	return e.String()
 }
@@ -642,6 +652,15 @@ func (v *vP4Svc) Write(ctx context.Context, req *p4.WriteRequest) (*p4.WriteResp
 		if errs[i].CanonicalCode != int32(codes.OK) {
 			anyErr = true
 			rec.Errors++
+		}
+		if vP4Trace {
+			d := rec.Updates[i]
+			if te := u.GetEntity().GetTableEntry(); te != nil {
+				if e, ok := s.decodeTableEntryQuiet(te); ok {
+					d = u.Type.String() + " " + e.String()
+				}
+			}
+			fmt.Fprintf(os.Stderr, "P4TRACE w%d: %s => %s\n", n, d, codes.Code(errs[i].CanonicalCode))
 		}
 	}
 	if hasUpd {
